@@ -18,8 +18,10 @@ Theorem C05_copy_ptrs_guard_exact : forall dest_nonnull src_nonnull,
 Proof. exact copy_ptrs_guard_exact. Qed.
 Print Assumptions C05_copy_ptrs_guard_exact.
 
-(* linalg: every rank (also different ranks: swap_elements' requires-clause compares InOutObj1::rank() with itself,
-   so operands of different rank reach the run-time check) and every extent value *)
+(* linalg: every rank and every extent value.  (Lists of different length = extents of different rank: `extents ==` then
+   answers false at compile time.  No linalg function reaches its check with operands of different rank: add / copy
+   require equal ranks, and swap_elements — whose requires-clause compares InOutObj1::rank() with itself — fails to
+   compile in its body (`y(i)` with the wrong number of indices); tried, see props/C05/REVIEW.md F9.) *)
 Theorem C05_linalg_guards_exact :
   (forall x y, linalg_copy_guard x y = true <-> pre_same_extents x y) /\
   (forall x y, linalg_swap_guard x y = true <-> pre_same_extents x y) /\
